@@ -293,6 +293,7 @@ theorem evOps_no_stamp (s : Sys F) (e : Ev) (j : Nat) (h : isStamp e = false) : 
   | setCfg cfg => exact id
   | crit d => exact id
   | failNext cid => exact id
+  | failAfter cid k => exact id
   | failBind cid => exact id
   | stamp idx weak ld ccb cct => cases h
   | syncTimeout => intro h'; cases h'
